@@ -9,19 +9,20 @@ CLAIMED = {
     'C18': ('proof', 'Every clause of the property is a postcondition over the abstract view (cells: address -> value) of the real '
             'ModbusSequentialDataBlock / ModbusSparseDataBlock / context methods; VCs are generated from the method bodies in /repo and discharged '
             'by z3 for all addresses, counts, block extents and contents (no bound). History quantifier closed by induction: each operation '
-            'preserves the view relation.', 'A1-A10 of DESIGN 2.2; library models (len, slicing, set/range/issubset, dict); z3/cvc5; pyvc translator. '
+            'preserves the view relation. The real ModbusSlaveContext constructor gives every omitted table a block of its own (two contexts, any subset of tables supplied: a write shows nowhere else).', 'A1-A10 of DESIGN 2.2; library models (len, slicing, set/range/issubset, dict); z3/cvc5; pyvc translator. '
             'Executable twin runs are bounded and never counted as proved.', 'contract-based deductive verification (pyvc VC generation from /repo AST + z3/cvc5)', 'DESIGN.md section 4 C18'),
     'C04': ('proof', 'execute() of FC 1,2,3,4,5,6,15,16,22,23 is proved against the S-REG step function for all requests, all block extents/contents and both '
             'zero-mode settings: normal responses carry the prescribed values, a write changes exactly the addressed cells of the table selected by the spec '
             'FC->table map and nothing else (whole-store frame), mask-write uses (cur AND and) OR (or AND NOT and), FC 23 writes before it reads. Callees are '
-            'replaced by contracts that are verified against their bodies. The history quantifier is closed by induction (per-request step lemma + map-model lemma).',
+            'replaced by contracts that are verified against their bodies. The history quantifier is closed by induction (per-request step lemma + map-model lemma). '
+            'The real block and context constructors own their storage (no sharing with the caller, between tables or between contexts).',
             'Sequential blocks backing four distinct tables (sparse blocks at block level in C18); A1-A10; z3/cvc5; pyvc translator; S-REG transcription. '
             'Front-end dispatch to execute() is covered under C09/C12.', 'contract-based deductive verification (pyvc VC generation from /repo AST + z3/cvc5)', 'DESIGN.md section 4 C04'),
     'C05': ('proof', 'Lemmas over wire bytes (PDU -> ServerDecoder.decode -> execute) for every function code and reason: quantity outside limits -> 03, byte count '
             'contradicting quantity -> 03, FC5 value not 0000/FF00 -> 03, range outside table -> 02, unassigned function code -> 01, each with fc|0x80, and '
             'exception => all four tables unchanged, FC 23 writes only if both ranges are valid; contexts over sequential blocks and over sparse blocks (arbitrary key sets). Two known findings (FC5 value, FC15 truncated quantity) are '
             'proved on the complement of their regions and their witnesses replayed on every run.',
-            'PDUs of the exact length their function code defines (other lengths: C12). Datastore-failure -> 04 is proved in the front-end units (C09/C12). '
+            'PDUs of the exact length their function code defines (other lengths: C12). Datastore-failure -> 04 is proved where the failure is caught: execute() of all seven front-ends, for a datastore failing with ValueError / KeyError / IndexError / IOError (C05/failure.*). '
             'A1-A10; z3/cvc5; pyvc translator.', 'contract-based deductive verification (pyvc VC generation from /repo AST + z3/cvc5)', 'DESIGN.md section 4 C05'),
     'C01': ('proof', 'For every message class of the S-PDU table (units/codecs.py; 34 data classes + 34 diagnostic classes + exception response): '
             'encode() of an instance holding any valid field values is byte for byte the PDU of MODBUS AP v1.1b3, and the server/client decoder turns any '
@@ -39,7 +40,7 @@ CLAIMED = {
     'C13': ('proof', 'Decomposition of ModbusTransactionManager.execute along its call structure, each piece a lemma over the real code: the retry loop is cut at the '
             'invariant "frames written + retries left <= retries + 1" (variant: retries left), which gives at most 1 + retries transmissions and termination of the loop '
             'for every retries value and every transport behaviour; real _transact/_recv/_send under a transport that returns anything or raises write at most one frame, '
-            'catch transport errors (closing the connection) and let nothing else escape; real processIncomingPacket of each framer, from any state on any bytes, lets '
+            'connect before they write, catch transport errors and silence (closing the connection) and let nothing else escape; real processIncomingPacket of each framer, from any state on any bytes, lets '
             'only ModbusIOException escape; ClientDecoder.decode lets nothing escape; given those, execute never raises, returns a message or an error object, leaves '
             'client.state == TRANSACTION_COMPLETE and no reply slot. Seven known findings (retry_on_empty alone never retries, retries=0 becomes 1, and per framing the '
             'exception classes that do escape on garbage, reply slot left behind). Retry options honoured and recovery after fault scripts: bounded units (see note).',
@@ -49,7 +50,7 @@ CLAIMED = {
     'C14': ('proof', 'Linear-arithmetic identities proved for all quantities: get_response_pdu_size() of FC 1-6, 15, 16, 23 and every FC 8 sub-function equals '
             '1 + len(encode()) of the normal response (for FC 8: the response its own execute() builds, run on the real device control block); '
             'base_adu_size + PDU size (doubled for ASCII) equals len(buildPacket()) for RTU, ASCII, binary, TLS and TCP for an arbitrary message; '
-            '_calculate_exception_length() equals the real exception frame length. Two known findings (GetClearModbusPlus prediction, binary delimiter doubling).',
+            '_calculate_exception_length() equals the real exception frame length. FC 22 (no prediction on this tree) has a conditional lemma, and any other request class that starts to expose a prediction makes the check UNDECIDED (size.classes-covered). Two known findings (GetClearModbusPlus prediction, binary delimiter doubling).',
             'An arbitrary message is abstracted by the assumed contract "encode() returns some bytes" (C02 purity). The length arithmetic inside '
             'The reader itself is proved too: from a transport holding exactly the reply frame (normal reply of the predicted length, or exception reply of the specified exception-ADU length) '
             '_recv requests exactly len(frame) bytes over all its reads and returns the frame (RTU, ASCII, binary, TCP). A1-A10; z3/cvc5.',
@@ -59,12 +60,12 @@ CLAIMED = {
             'that image inside arbitrary surrounding bytes returns the value and advances by its width (the sequence statement follows by induction on '
             'the value list), to_registers is the big-endian 16-bit reading with zero pad, fromRegisters restores the payload. All values, no bound.',
             'IEEE-754 conversion of struct e/f/d is an uninterpreted injection with unpack(pack(v)) == v; struct byte-slice rewrite rules '
-            '(pack(unpack(bytes)) == bytes, recomposition of consecutive slices) are part of the trusted struct model. A1-A10; z3/cvc5.',
+            '(pack(unpack(bytes)) == bytes, recomposition of consecutive slices) are part of the trusted struct model. str arguments of add_string (UTF-8 image) are a BOUNDED stand-in over a fixed list of texts, never counted as proved. A1-A10; z3/cvc5.',
             'contract-based deductive verification (pyvc VC generation from /repo AST + z3/cvc5)', 'DESIGN.md section 4 C19'),
     'C08': ('proof', 'Pairing logic of the real ModbusTransactionManager.execute for all four client framings (plus the UDP-style client): from any prior state '
             '(stale bytes in the framer, client state, transaction-id counter including the wrap, a reply slot left over from an earlier call) and a havoc-ed '
             'transport, the returned object is a ModbusIOException or a message the framer delivered during this call, handed over with an empty framer buffer, '
-            'carrying the request transaction id (TCP) / unit id (serial) and function code. The retry loop is cut (any number of retries); _transact and the '
+            'carrying the request transaction id (TCP) / unit id (serial) and function code; an attempt that ends in silence closes the connection (a late reply cannot reach the next transaction). The retry loop is cut (any number of retries); _transact and the '
             'framer are replaced by contracts that are themselves established on the real code by C08/transact.<kind> (frame conditions of _transact) and '
             'C08/filter.<kind> (every delivered message carries the wire unit id, passed the unit filter, and on TCP the wire transaction id; receive loops cut). '
             'Five known findings (reply transaction id never compared, function code never compared, unit 0/255 accepts any unit, socket error path, left-over reply slot).',
@@ -74,14 +75,14 @@ CLAIMED = {
     'C09': ('proof', 'Each of the seven execute/send pairs (sync TCP/serial/UDP, asyncio TCP/UDP, Twisted TCP/UDP) is proved against S-SERVE for an arbitrary '
             'request (ids, function code, outcome of request.execute: normal / exception / raises), arbitrary hosted-unit sets, single/multi mode, '
             'broadcast and ignore_missing_slaves flags: exactly one frame per accepted request, byte-identical to MBAP(tid, uid, fc or fc|0x80, payload) with '
-            'the ids echoed; nothing for broadcast, absent-unit-with-ignore, no-response messages; 0x0B for absent units; 04 for datastore failures.',
+            'the ids echoed; nothing for broadcast, absent-unit-with-ignore, no-response messages; 0x0B for absent units; 04 for datastore failures. A well-formed request frame of any body length (none included) alone on the wire reaches execute() exactly once, for all four framers (C09/accepted.*).',
             'Per-connection ordering ("in request order") rests on the framer calling the callback once per frame in order (C06) - assumed here. '
             'socket.send/transport.write atomic (external). Broadcast lemmas unroll the loop over hosted units (0..3 units, symbolic ids). One known finding (Twisted UDP ignores should_respond).',
             'contract-based deductive verification (pyvc VC generation from /repo AST + z3/cvc5)', 'DESIGN.md section 4 C09'),
     'C10': ('proof', 'Routing clauses of S-SERVE for all seven front-ends over arbitrary hosted-unit sets (symbolic map): executed exactly once and only against '
             'context[unit_id]; absent unit: nothing executed, silence or 0x0B; single mode: every id reaches the one context; broadcast: executed once on every '
             'hosted unit, no response (hosted sets of 0..3 units, ids symbolic - bounded in the NUMBER of units); the unit filter _validate_unit_id against '
-            'its specification; every serving loop hands the framer all hosted units (+0 under broadcast).',
+            'its specification; every serving loop hands the framer all hosted units (+0 under broadcast); default-constructed slave contexts share no storage (real constructor).',
             'Non-interference between units rests on execute() receiving only the addressed context object (proved) and contexts of distinct units being '
             'distinct objects (configuration assumption). One known finding (sync UDP handler never admits unit 0 for broadcast).',
             'contract-based deductive verification (pyvc VC generation from /repo AST + z3/cvc5)', 'DESIGN.md section 4 C10'),
@@ -89,7 +90,7 @@ CLAIMED = {
             'invariant, so all iterations) with the transport returning any bytes or raising and the framer raising ANY exception: no exception escapes, and '
             'after an exception the connection is closed or the framer reset; (b) execute() of all seven front-ends lets no exception escape and maps a '
             'datastore failure to exception 04; (c) Twisted entry points raise only what the framer raised; (e) for every write function code (5, 6, 15, 16, 22, 23) and ANY byte string after it: unless the body has exactly the length '
-            'its own count / byte-count fields prescribe (and those agree), decode + execute leaves all four tables unchanged (two known findings: trailing bytes ignored, FC 15 truncation).',
+            'its own count / byte-count fields prescribe (and those agree), decode + execute leaves all four tables unchanged (two known findings: trailing bytes ignored, FC 15 truncation); (f) the one request decoder with a while loop (FC 21) terminates on every byte string (loop variant).',
             'Reactor / event-loop behaviour around the proved callbacks is external (Twisted drops the connection on an exception leaving dataReceived). '
             'That a rejected PDU never reaches the store follows from execute being the framer callback, called only after decode returned a message (C07 gate units).',
             'contract-based deductive verification (pyvc VC generation from /repo AST + z3/cvc5)', 'DESIGN.md section 4 C12'),
@@ -101,7 +102,7 @@ CLAIMED = {
             'ownership / lock-invariant obligations (deductive, AST + call graph), part of the contract-based family', 'DESIGN.md section 4 C15'),
     'C17': ('proof', 'Relational: all seven front-ends are proved against the same S-SERVE contract (same frames, same executions for the same inputs), stream '
             'front-ends build a fresh framer per connection (proved on the real setup/connection_made/connectionMade), request execution has no suspension '
-            'point on the event-loop front-ends (ownership). Interleavings of several connections are NOT explored (not applicable to this family).',
+            'point on the event-loop front-ends (ownership); threaded connections block without a receive timeout (a pause inside a frame is not an event on any front-end). Interleavings of several connections are NOT explored (not applicable to this family).',
             'Three known findings: Twisted UDP should_respond; threaded server executes requests without a lock (directed two-thread lost-update witness); '
             'datagram front-ends share one framer between peers.', 'contract-based deductive verification + ownership obligations', 'DESIGN.md section 4 C17'),
     'C20': ('proof', 'DeviceInformationFactory.get returns exactly the non-empty objects of the category from the requested id onward, ascending, with exact values '
@@ -114,7 +115,7 @@ CLAIMED = {
     'C16': ('proof', 'Contracts on the Twisted ModbusClientProtocol operations over the ghost map pending: tid -> deferred, each proved from an arbitrary pending map '
             '(0..3 other outstanding requests, symbolic pairwise-distinct ids, arbitrary tid counter): execute allocates (tid+1) mod 65536, writes the frame carrying '
             'it, files the returned deferred under it and touches nothing else; _handleResponse fires exactly pending[reply tid] once and removes it, an unknown id '
-            'fires nothing and leaves the framer (frames still buffered from the same segment) untouched; connectionLost fails every pending deferred once with a connection error and later requests fail at once; FIFO variant pairs in arrival order.',
+            'fires nothing and leaves the framer (frames still buffered from the same segment) untouched; connectionLost fails every pending deferred once with a connection error and later requests fail at once; FIFO variant pairs in arrival order; the real constructor picks matching by transaction id exactly when the framer (given as class, instance or left out) is the MBAP one.',
             'Bounded in the NUMBER of other outstanding requests (<= 3; the untouched entries are symmetric). twisted Deferred / defer.fail / Failure are external '
             '(ghost firing log). One known finding (tid reuse after wrap while still pending).', 'contract-based deductive verification (pyvc VC generation from /repo AST + z3/cvc5)', 'DESIGN.md section 4 C16'),
     'C07': ('proof', 'Gate obligation per framer from an ARBITRARY framer state (any buffer, any header; the first loop iteration from an arbitrary state is the '
